@@ -530,6 +530,7 @@ func genC07(r *rand.Rand, t *Trace, thorough bool) {
 			t.Emit(c, "hist."+kindNames[kind])
 		}
 	}
+	bigFlatRoundTrip(r, t)
 	// (b) all eight kinds: framing, byte counts, exact consumption, reload equivalence
 	for ck := 0; ck < 8; ck++ {
 		for it := 0; it < per; it++ {
@@ -672,6 +673,39 @@ func continueBoth(r *rand.Rand, b builtState, l loaded, dim int) bool {
 		}
 	}
 	return same
+}
+
+// bigFlatRoundTrip: a flat index beyond every block size a reader might pre-allocate or read in (more than
+// 16384 vectors, a stream of more than 128 KiB): written, read back with a sentinel behind it, probed.
+func bigFlatRoundTrip(r *rand.Rand, t *Trace) {
+	var s recvSpec
+	s.ck = 0
+	s.vp = vecParams{kind: 0, dim: 1, metric: r.Intn(2), nlist: 1, m: 1, nbits: 1}
+	idx, _ := s.vp.build()
+	n := 16385 + r.Intn(200)
+	for i := 0; i < n; i++ {
+		idx.Add(*comet.NewVectorNodeWithID(uint32(i+1), []float32{float32(i%977) * 0.5}))
+	}
+	var buf bytes.Buffer
+	wn, err := idx.WriteTo(&buf)
+	if err != nil {
+		panic(err)
+	}
+	stream := append([]byte(nil), buf.Bytes()...)
+	sentinel := append(append([]byte(nil), stream...), 0xDE, 0xAD, 0xBE)
+	// (observed on the implementation only -- byte counts, exact consumption, answers: the model's decoder walks
+	// lists and would take minutes on a stream of this size; the format itself is the small cases' business)
+	l, code, rn, cons := readWith(s, sentinel)
+	if cons != int64(len(stream)) && code == 0 {
+		code = 1 // read past (or short of) its own bytes
+	}
+	qs := [][]float32{{3.25}, {100}, {-1}}
+	src := loaded{nodeQ: true, vec: idx}
+	diffs := 0
+	if code != 0 || src.probe(qs, nil) != l.probe(qs, nil) {
+		diffs = 1
+	}
+	t.Emit(NewCase(703).N(0).N(len(qs)).N(diffs).I(wn-int64(len(stream))).I(rn-int64(len(stream))).N(0).B(false), "reload.flat_large")
 }
 
 func genC16(r *rand.Rand, t *Trace, thorough bool) {
